@@ -48,6 +48,12 @@ func init() {
 		}
 		return 6
 	}, runDrvC08)
+	addKMount("C01", func(tier string) int {
+		if tier == "thorough" {
+			return 48
+		}
+		return 4
+	}, runDrvC01)
 }
 
 type infoJSON struct {
@@ -607,6 +613,215 @@ func runDrvC05(c *core.Case, k int) {
 		}
 	}
 	c.Distinct(fmt.Sprintf("drvc/c05/%s/ps%d/av%d", mode, ps, autoVac))
+	if k < 2 {
+		c.Sample(detail(nil))
+	}
+}
+
+// runDrvC01: two real litefs processes (static lease: one primary, one replica
+// following it). Real SQLite commits on the primary's mount while the REPLICA
+// process is killed with SIGKILL in the middle of receiving the stream and then
+// restarted on its data directory. After every restart it must converge, and
+// what real SQLite reads through the replica's mount must be what it reads
+// through the primary's; the replica's data directory, judged on a copy, must
+// reopen to a position on the primary's chain with that position's image.
+func runDrvC01(c *core.Case, k int) {
+	if ok, why := kmountAvailable(); !ok || os.Getenv("VERIF_LITEFS_BIN") == "" {
+		c.Count("drvc_unavailable", 1)
+		if k == 0 {
+			c.Sample(map[string]any{"drvc": "unavailable", "why": why})
+		}
+		return
+	}
+	mode := []string{"delete", "wal", "truncate", "wal"}[k%4]
+	ps := []int{1024, 4096, 512}[c.Rng.IntN(3)]
+	var hist []string
+	detail := func(extra map[string]any) map[string]any {
+		d := map[string]any{"driver": "C (two litefs processes + real SQLite, SIGKILL of the replica)", "journal_mode": mode, "page_size": ps, "events": hist}
+		for k, v := range extra {
+			d[k] = v
+		}
+		return d
+	}
+	pdir, rdir := filepath.Join(c.Dir, "p"), filepath.Join(c.Dir, "r")
+	_ = os.MkdirAll(pdir, 0o755)
+	_ = os.MkdirAll(rdir, 0o755)
+	P, err := startLitefs(pdir, "")
+	if err != nil {
+		c.Count("drvc_unavailable", 1)
+		c.Sample(map[string]any{"drvc": "start failed", "why": err.Error()})
+		return
+	}
+	defer P.stop()
+	replicaLease := fmt.Sprintf("  type: \"static\"\n  candidate: false\n  hostname: \"n0\"\n  advertise-url: \"http://%s\"\n  reconnect-delay: \"20ms\"\n", P.addr)
+	R, err := startLitefsLease(rdir, replicaLease, "")
+	if err != nil {
+		c.Count("drvc_unavailable", 1)
+		c.Sample(map[string]any{"drvc": "replica start failed", "why": err.Error()})
+		return
+	}
+	defer func() {
+		if R != nil {
+			R.stop()
+		}
+	}()
+	c.Count("drvc_cases", 1)
+	proc, err := startSQLProc()
+	if err != nil {
+		c.Inconclusive("SQL child: " + err.Error())
+		return
+	}
+	defer proc.stop()
+	w, err := proc.open(filepath.Join(P.mnt, "db"), false)
+	if err != nil {
+		c.Violate("C01/drvc/open", err.Error(), detail(nil))
+		return
+	}
+	for _, q := range []string{fmt.Sprintf("PRAGMA page_size=%d", ps), "PRAGMA journal_mode=" + mode,
+		"CREATE TABLE t0(id INTEGER PRIMARY KEY, k INTEGER, v BLOB)", "INSERT INTO t0 VALUES(1,1,randomblob(3000))"} {
+		if _, err := w.queryStringOrExec(q); err != nil {
+			c.Violate("C01/drvc/setup", fmt.Sprintf("%q: %v", q, err), detail(nil))
+			return
+		}
+	}
+	chain := &ltxChain{dir: filepath.Join(P.data, "dbs", "db", "ltx")}
+	// posOfDir reads a node's position from its newest transaction file
+	posOfDir := func(data string) mon.PosKey {
+		p, _ := newestLTXPos(filepath.Join(data, "dbs", "db"))
+		return p
+	}
+	converged := func(ctx string) bool {
+		if _, prob := chain.advance(); prob != "" {
+			c.Violate("C01/drvc/ltx-chain", ctx+": "+prob, detail(nil))
+			return false
+		}
+		deadline := time.Now().Add(20 * time.Second)
+		for time.Now().Before(deadline) {
+			if posOfDir(R.data) == chain.pos {
+				return true
+			}
+			time.Sleep(10 * time.Millisecond)
+		}
+		c.Violate("C01/drvc/replica-not-converged", fmt.Sprintf("%s: 20 s after the primary stopped writing the replica process is at %s, the primary at %s (replica log: %s)", ctx, posOfDir(R.data), chain.pos, R.logTail()), detail(nil))
+		return false
+	}
+	sameContent := func(ctx string) bool {
+		ph, err := w.contentHash()
+		if err != nil {
+			c.Violate("C01/drvc/read-error", ctx+": primary: "+err.Error(), detail(nil))
+			return false
+		}
+		// the replica's position file is served only once the apply is complete
+		var rh string
+		for i := 0; i < 200; i++ {
+			r, err := proc.open(filepath.Join(R.mnt, "db"), true)
+			if err == nil {
+				rh, err = r.contentHash()
+				r.close()
+			}
+			if err == nil && rh == ph {
+				c.Count("drvc_replica_reads_equal", 1)
+				return true
+			}
+			if err != nil && isCorruptionErr(err) {
+				c.Violate("C01/drvc/replica-read-corrupt", fmt.Sprintf("%s: reading through the replica's mount: %v", ctx, err), detail(nil))
+				return false
+			}
+			time.Sleep(10 * time.Millisecond)
+		}
+		c.Violate("C01/drvc/replica-content-differs", fmt.Sprintf("%s: the replica reads %s, the primary %s, although both are at %s", ctx, rh, ph, chain.pos), detail(nil))
+		return false
+	}
+	if !converged("initial") || !sameContent("initial") {
+		return
+	}
+	rounds := 3
+	if c.Tier == "thorough" {
+		rounds = 5
+	}
+	nextID := 100
+	for round := 0; round < rounds; round++ {
+		stopW := make(chan struct{})
+		var wg sync.WaitGroup
+		var werr atomic.Value
+		wrng := c.SubRng(fmt.Sprintf("writer-%d", round))
+		wg.Add(1)
+		go func() {
+			defer wg.Done()
+			for i := 0; ; i++ {
+				select {
+				case <-stopW:
+					return
+				default:
+				}
+				nextID++
+				q := fmt.Sprintf("INSERT INTO t0 VALUES(%d,%d,randomblob(%d))", nextID, i, 10+wrng.IntN(6000))
+				switch wrng.IntN(5) {
+				case 0:
+					q = fmt.Sprintf("UPDATE t0 SET v=randomblob(%d), k=k+1 WHERE id%%3=%d", 50+wrng.IntN(3000), wrng.IntN(3))
+				case 1:
+					q = fmt.Sprintf("DELETE FROM t0 WHERE id%%7=%d AND id>1", wrng.IntN(7))
+				}
+				if err := w.exec(q); err != nil {
+					werr.Store(fmt.Sprintf("%q: %v", q, err))
+					return
+				}
+			}
+		}()
+		time.Sleep(time.Duration(10+c.Rng.IntN(150)) * time.Millisecond)
+		R.kill9()
+		hist = append(hist, fmt.Sprintf("round %d: replica process killed while the primary was writing", round))
+		c.Count("drvc_kills", 1)
+		// judge a copy of what the replica's death left
+		cp := filepath.Join(c.Dir, fmt.Sprintf("rimage-%d", round))
+		_ = copyDataDir(R.data, cp)
+		time.Sleep(time.Duration(c.Rng.IntN(60)) * time.Millisecond)
+		close(stopW)
+		wg.Wait()
+		if v := werr.Load(); v != nil {
+			c.Violate("C01/drvc/primary-write-failed", "a write on the primary failed while its replica was being killed: "+v.(string), detail(nil))
+			return
+		}
+		if _, prob := chain.advance(); prob != "" {
+			c.Violate("C01/drvc/ltx-chain", prob, detail(nil))
+			return
+		}
+		if _, err := os.Stat(filepath.Join(cp, "dbs", "db")); err == nil {
+			nn, err := drv.NewNode(drv.Config{Dir: cp, Candidate: false, Leaser: litefs.NewStaticLeaser(false, "localhost", "http://127.0.0.1:1")})
+			if err != nil {
+				c.Violate("C05/drvc/replica-reopen-failed", fmt.Sprintf("the data directory a killed replica left cannot be opened: %v", err), detail(nil))
+				return
+			}
+			pos := mon.PosOf(nn, "db")
+			raw := mon.RawImage(mon.DBDir(nn, "db"))
+			nn.Close()
+			if pos.TXID > 0 {
+				want := chain.imageAt(pos)
+				if want == nil {
+					c.Violate("C01/drvc/replica-off-history", fmt.Sprintf("the killed replica's directory reopens at %s, which the primary never committed", pos), detail(nil))
+					return
+				}
+				if d := want.Diff(raw); d != "" {
+					c.Violate("C01/drvc/replica-image-mismatch", fmt.Sprintf("the killed replica's directory reopens at %s but its database differs from the primary's image at that position: %s", pos, d), detail(nil))
+					return
+				}
+			}
+			c.Count("drvc_images_judged", 1)
+		}
+		_ = os.RemoveAll(cp)
+		// the replica process comes back
+		R, err = startLitefsLease(rdir, replicaLease, "")
+		if err != nil {
+			R = nil
+			c.Violate("C05/drvc/replica-restart-failed", fmt.Sprintf("the replica process does not come back on the directory SIGKILL left: %v", err), detail(nil))
+			return
+		}
+		if !converged(fmt.Sprintf("after restart %d", round)) || !sameContent(fmt.Sprintf("after restart %d", round)) {
+			return
+		}
+		c.Count("drvc_restarts_ok", 1)
+	}
+	c.Distinct(fmt.Sprintf("drvc/c01/%s/ps%d", mode, ps))
 	if k < 2 {
 		c.Sample(detail(nil))
 	}
